@@ -418,4 +418,28 @@ theorem session_decodes (v : Version) (sc nh : Bool) (inners : List Bytes)
       = some (raws v sc nh (sessionBodies Gen.Netconf.initialMessageID inners)) :=
   strictDecode_wire v sc nh _ h
 
+/-- every reported input of a session is non-empty (it carries a message-id) -/
+theorem session_raws_ne_nil (v : Version) (sc nh : Bool) (first : Nat) (inners : List Bytes) :
+    ∀ r ∈ raws v sc nh (sessionBodies first inners), r ≠ [] := by
+  induction inners generalizing first with
+  | nil => intro r hr; simp [raws, sessionBodies] at hr
+  | cons i is ih =>
+    intro r hr
+    simp only [raws, sessionBodies, List.map_cons, List.mem_cons] at hr
+    rcases hr with rfl | hr
+    · intro e
+      have := msgIdOf_serialize v sc nh first i
+      rw [e] at this
+      simp [msgIdOf, splitOn, msgIdKey] at this
+    · exact ih (first + 1) r hr
+
+/-- For NETCONF 1.1 the only hypothesis left is the RFC's own size limit: every session whose
+reported inputs are shorter than 2³² bytes is decoded exactly by a strict RFC 6242 peer. -/
+theorem session_decodes_v11 (sc nh : Bool) (inners : List Bytes)
+    (hsize : ∀ r ∈ raws .v11 sc nh (sessionBodies Gen.Netconf.initialMessageID inners), r.length < 2 ^ 32) :
+    strictDecode .v11 (session .v11 sc nh inners)
+      = some (raws .v11 sc nh (sessionBodies Gen.Netconf.initialMessageID inners)) :=
+  session_decodes .v11 sc nh inners
+    (fun r hr => ⟨session_raws_ne_nil .v11 sc nh _ inners r hr, hsize r hr⟩)
+
 end Scrapli.Netconf.C03
